@@ -708,3 +708,38 @@ impl Input {
         (s, spans)
     }
 }
+
+/// Turns occurrences of one or two terminal texts into lookahead variants of the same text
+/// (`'a' ?= /\s*b/`, `'a' ?! /\s*b/`, plain): same text and kind, different identity.  Which
+/// variant the scanner reports depends on what follows in the input, so checks that use this
+/// decoration must take the token sequence from the real scanner.
+pub fn lookahead_variants(g: &mut Grammar, t: &mut Tape) {
+    let terms = g.terms();
+    if terms.len() < 2 {
+        return;
+    }
+    let rounds = 1 + t.next(2);
+    for _ in 0..rounds {
+        let a = terms[t.next(terms.len())].lit.text.clone();
+        let b = terms[t.next(terms.len())].lit.text.clone();
+        let pat = format!("\\s*{}", regex::escape(&b).replace('/', "\\/"));
+        fn walk(x: &mut Alts, a: &str, pat: &str, t: &mut Tape) {
+            for alt in x.iter_mut() {
+                for f in alt.iter_mut() {
+                    match f {
+                        Factor::T { term, .. } if term.lit.text == a && term.lookahead.is_none() => match t.next(4) {
+                            0 | 1 => {}
+                            2 => term.lookahead = Some((true, Lit { text: pat.to_string(), quote: Quote::Rx })),
+                            _ => term.lookahead = Some((false, Lit { text: pat.to_string(), quote: Quote::Rx })),
+                        },
+                        Factor::Group(y) | Factor::Opt(y) | Factor::Rep(y) => walk(y, a, pat, t),
+                        _ => {}
+                    }
+                }
+            }
+        }
+        for p in g.prods.iter_mut() {
+            walk(&mut p.alts, &a, &pat, t);
+        }
+    }
+}
